@@ -120,6 +120,7 @@ func PodsDomainAt(base, maxOrd, maxRep, nph int, withDeleting bool) *Domain {
 	for i := 0; i < nOrd; i++ {
 		dims = append(dims, nPod)
 	}
+	dims = append(dims, 3) // the set's template: the newest revision's (t2), or an earlier one (t1, t0): a roll-back over one / two revisions
 	d := &Domain{Name: fmt.Sprintf("pods(ord<=%d,rep<=%d,phases=%d,deleting=%v)", maxOrd, maxRep, nph, withDeleting), Dims: dims}
 	if base > 0 {
 		d.Name = fmt.Sprintf("pods(ord %d..%d,rep<=%d,phases=%d,deleting=%v)", base, base+maxOrd, maxRep, nph, withDeleting)
@@ -169,6 +170,7 @@ func PodsDomainAt(base, maxOrd, maxRep, nph int, withDeleting bool) *Domain {
 		} else {
 			s.ObsGen = 1
 		}
+		s.Tmpl = []string{"t2", "t1", "t0"}[ix[7+nOrd]] // (the recorded update revision stays t2.0: the edit has not been reconciled yet)
 		return sc
 	}
 	return d
